@@ -252,6 +252,14 @@ def cases(tier):
     yield {'desc': {}}
     yield {'desc': {'processors': [comp('ProcA')], 'entities': []}}
     yield {'desc': {'entities': [{'id': 'e', 'components': []}]}}
+    # the same path through both reference forms inside one dictionary, in both orders
+    both = [comp('CompB', ['$res{r.x}', '$handle{r.x}']), comp('CompB', ['$handle{r.x}', '$res{r.x}']),
+            comp('CompA', ['$handle{top}'], {'k': '$res{top}'}), comp('CompA', ['$res{top}'], {'k': '$handle{top}'}),
+            comp('CompC', None, {'a': '$res{r.x}', 'b': '$handle{r.x}', 'c': '$res{r.x}'}),
+            comp('CompB', ['${MOD.CONST_INT}', '$res{top}', '${MOD.CONST_INT}', '$handle{top}', '$res{r.x}'])]
+    for s in both:
+        yield {'desc': {'entities': [{'components': [s]}]}}
+        yield {'desc': {'processors': [dict(s, type='MOD.ProcB')]}}
     shapes = []
     for a in ARGS:
         shapes.append(comp('CompA', [a]))
